@@ -35,6 +35,7 @@ ASSUMPTIONS = [
 SEL = G.CallN("fa", None, (G.Cap("w", "b0", None, None, "=", 0), G.Cap("u", "b1", None, None, "=", 1)), ())
 SEL2 = G.CallN("fb", None, (G.Cap("u", "b1", None, None, "=", 1),), ())  # optional second selector of the root probe
 BG = G.CallN("fa", None, (G.Cap("u", "z0", None, None, "=", 1),), ())
+BG2 = G.CallN("fa", None, (G.Cap("w", "y0", None, None, "=", 1),), ())  # activated in the same frame as the root probe
 
 NONRED = ["accum", "getitem", "map", "filter"]
 RED = ["count", "sum", "min", "max", "last", "take_last"]
@@ -113,11 +114,17 @@ class Sim:
         self.how = None
         self.sels = [SEL]
         self.raised_completion = False
+        self.bg2 = None
+        self.bg2_sink = None
+        self.bg2_expected = []
 
-    def events_of(self, trace, before_t=None):
+    def events_of(self, trace, before_t=None, after_t=None, sels=None):
+        """Events of the root probe's selectors; before_t: the probe ends at that time;
+        after_t: it starts at that time (activations entered earlier are not matched)."""
         timed = []
-        for sel in self.sels:
-            timed += [(t, g) for t, g in M.immediate_events(sel, trace, with_time=True)]
+        within = None if after_t is None else (lambda t: t > after_t)
+        for sel in (sels or self.sels):
+            timed += [(t, g) for t, g in M.immediate_events(sel, trace, within=within, with_time=True)]
         timed.sort(key=lambda tg: tg[0])
         return [e for t, g in timed if before_t is None or t < before_t for e in g]
 
@@ -168,10 +175,16 @@ class Sim:
                 return True
         return False
 
-    def op_deactivate(self, by_exc):
+    def op_deactivate(self, by_exc, via="root"):
+        """via='derived': through a handle derived from the probe (probe["b1"]), which must act on
+        the probe itself."""
         if self.phase != "active":
             return
         expect_raise = self.empty_strict()
+        handle = self.probe
+        if via == "derived" and self.how != "values":
+            handle = self.probe["b1"]
+            self.flags.add("derived-handle")
         try:
             if self.how == "values":
                 if by_exc:
@@ -180,11 +193,11 @@ class Sim:
                     self.cm.__exit__(None, None, None)
             elif self.how == "with":
                 if by_exc:
-                    self.probe.__exit__(F.Boom, F.Boom("x"), None)
+                    handle.__exit__(F.Boom, F.Boom("x"), None)
                 else:
-                    self.probe.__exit__(None, None, None)
+                    handle.__exit__(None, None, None)
             else:
-                self.probe.deactivate()
+                handle.deactivate()
         except BaseException as e:
             if not (expect_raise and type(e).__name__ == "SequenceContainsNoElementsError"):
                 raise PropertyViolation("deactivate", f"deactivation raised {HY.describe_exc(e)}",
@@ -252,6 +265,9 @@ class Sim:
         elif not on and self.bg is not None:
             self.bg.__exit__(None, None, None)
             self.bg = None
+        elif not on and self.bg2 is not None:
+            self.bg2.__exit__(None, None, None)
+            self.bg2 = None
 
     def op_incall(self, roots, k, by_exc):
         """A call during which the probe is deactivated from *inside* the k-th activation (before
@@ -285,11 +301,77 @@ class Sim:
             self.flags.add("frames-outlive-deactivation")
         if self.bg is not None:
             self.bg_expected.extend(e for g in M.immediate_events(BG, trace) for e in g)
+        if self.bg2 is not None:
+            self.bg2_expected.extend(e for g in M.immediate_events(BG2, trace) for e in g)
         err = []
 
         def cb_fn(node):
             try:
                 self.op_deactivate(by_exc)
+            except BaseException as e:  # noqa
+                err.append(e)
+            return node["ret"]
+
+        F.DISPATCH["cb"] = cb_fn
+        try:
+            F.drive(roots)
+        finally:
+            F.DISPATCH.pop("cb", None)
+        if err:
+            raise err[0]
+
+    def op_incall_act(self, roots, k, how, with_bg):
+        """The probe (and optionally the background probe right after it, in the same frame) is
+        activated from *inside* the k-th activation of a call: it hears the activations entered
+        from then on, during this call and after it returned."""
+        if self.phase != "new" or how == "values":
+            return self.op_call(roots)
+        roots = copy.deepcopy(roots)
+        nodes = []
+
+        def walk(n):
+            nodes.append(n)
+            for c in n["pre"] + n["post"]:
+                walk(c)
+
+        for r in roots:
+            walk(r)
+        host = nodes[k % len(nodes)]
+        cb = {"id": 991, "fn": "cb", "u0": 9911, "w0": 9915, "ru": None, "rw": None, "pre": [], "post": [],
+              "via": False, "catch": False, "raises": False, "ret": 9919}
+        host["pre"].insert(0, cb)
+        trace = M.simulate(roots)
+        t_cb = next((b.t for b in trace.binds if b.act.fn == "cb"), None)
+        bg_was_on = self.bg is not None
+        if t_cb is None:
+            if self.events_of(trace):
+                self.flags.add("events-outside")
+        else:
+            ev = self.events_of(trace, after_t=t_cb)
+            self.delivered.extend(ev)
+            if ev:
+                self.flags.add("events-inside")
+            self.flags.add("activated-inside-call")
+        if bg_was_on:
+            self.bg_expected.extend(e for g in M.immediate_events(BG, trace) for e in g)
+        bg_new = with_bg and self.bg2 is None and t_cb is not None
+        if bg_new:
+            self.bg2_expected = self.events_of(trace, after_t=t_cb, sels=[BG2])
+        elif self.bg2 is not None:
+            self.bg2_expected.extend(self.events_of(trace, sels=[BG2]))
+        err = []
+
+        def cb_fn(node):
+            from ptera.probe import Probe
+
+            try:
+                self.op_activate(how)
+                if bg_new:
+                    # a second activation in the very same frame
+                    self.bg2 = Probe(G.canonical(BG2), env=self.env)
+                    self.bg2_sink = self.bg2.accum()
+                    self.bg2.__enter__()
+                    self.flags.add("two-activations-in-one-frame")
             except BaseException as e:  # noqa
                 err.append(e)
             return node["ret"]
@@ -313,6 +395,8 @@ class Sim:
             self.flags.add("events-outside")
         if self.bg is not None:
             self.bg_expected.extend(e for g in M.immediate_events(BG, trace) for e in g)
+        if self.bg2 is not None:
+            self.bg2_expected.extend(e for g in M.immediate_events(BG2, trace) for e in g)
         F.drive(copy.deepcopy(roots))
 
     # -- invariants
@@ -348,7 +432,10 @@ class Sim:
                 )
         if self.bg_sink is not None and list(self.bg_sink) != self.bg_expected:
             raise PropertyViolation("background", f"background probe expected {self.bg_expected!r}, got {list(self.bg_sink)!r}")
-        active = (1 if self.phase == "active" else 0) + (1 if self.bg is not None else 0)
+        if self.bg2_sink is not None and list(self.bg2_sink) != self.bg2_expected:
+            raise PropertyViolation("background", f"the probe activated in the same frame as the root probe expected "
+                                                  f"{self.bg2_expected!r}, got {list(self.bg2_sink)!r}")
+        active = (1 if self.phase == "active" else 0) + (1 if self.bg is not None else 0) + (1 if self.bg2 is not None else 0)
         st = self.states["fa"]
         if active == 0:
             probs = st.is_clean() + HY.global_state_problems()
@@ -359,6 +446,8 @@ class Sim:
             want_ids += [id(h) for h in self.probe._ol.handlers]
         if self.bg is not None:
             want_ids += [id(h) for h in self.bg._ol.handlers]
+        if self.bg2 is not None:
+            want_ids += [id(h) for h in self.bg2._ol.handlers]
         have = sorted(id(a) for _, a in HY.handlers_installed())
         if sorted(want_ids) != have:
             raise PropertyViolation("handlers", f"{len(have)} handlers installed, expected {len(want_ids)} (phase={self.phase}, bg={self.bg is not None})")
@@ -376,6 +465,11 @@ class Sim:
         try:
             if self.bg is not None:
                 self.bg.__exit__(None, None, None)
+        except BaseException:
+            pass
+        try:
+            if self.bg2 is not None:
+                self.bg2.__exit__(None, None, None)
         except BaseException:
             pass
         self.cm = None
@@ -445,9 +539,14 @@ def make_machine(rec):
             self._do(("activate", how))
 
         @precondition(lambda self: self.sim.phase == "active")
-        @rule(by_exc=st.booleans())
-        def deactivate(self, by_exc):
-            self._do(("deactivate", by_exc))
+        @rule(by_exc=st.booleans(), via=st.sampled_from(["root", "root", "derived"]))
+        def deactivate(self, by_exc, via):
+            self._do(("deactivate", by_exc, via))
+
+        @precondition(lambda self: self.sim.phase == "new")
+        @rule(roots=plans, k=st.integers(0, 5), how=st.sampled_from(["with", "global"]), with_bg=st.booleans())
+        def incall_act(self, roots, k, how, with_bg):
+            self._do(("incall_act", roots, k, how, with_bg))
 
         @precondition(lambda self: self.sim.phase != "new")
         @rule()
@@ -497,6 +596,8 @@ def _brief(op):
         return ["call", T.plan_brief(op[1])]
     if op[0] == "incall":
         return ["incall", T.plan_brief(op[1]), op[2], op[3]]
+    if op[0] == "incall_act":
+        return ["incall_act", T.plan_brief(op[1]), op[2], op[3], op[4]]
     return list(op)
 
 
